@@ -663,3 +663,80 @@ def any_guard(F, body):
                     ops.append(rv["op"])
         out.append((c.target, ft[0], ops, c))
     return out
+
+
+def field_stores(F, body, field_name, adt_suffix=None):
+    """Stores to a field in `body`: direct assignments and calls of a trivial setter (`fn set_x(&mut self, v) { self.x = v }`).
+    -> [(bb, value expr in `body`, span)]"""
+    out = []
+    for (bb, i, pl, rv, sp) in body.assigns():
+        fs = [p for p in pl["proj"] if p["k"] == "field"]
+        if fs and fs[-1].get("name") == field_name and (adt_suffix is None or fs[-1].get("adt", "").endswith(adt_suffix)):
+            out.append((bb, body.rv_expr(rv), sp))
+    for c in body.calls():
+        sb = F.bodies.get(c.callee)
+        if sb is None or sb.path == body.path or len(sb.calls()) != 0 or sb.arg_count != 2 or len(c.args) != 2:
+            continue
+        st = [(b2, rv2) for (b2, i2, pl2, rv2, sp2) in sb.assigns()
+              if [p for p in pl2["proj"] if p["k"] == "field"] and [p for p in pl2["proj"] if p["k"] == "field"][-1].get("name") == field_name]
+        if len(st) == 1 and strip_expr(sb.rv_expr(st[0][1])) == ("param", 1):
+            out.append((c.bb, body.expr(c.args[1]), c.span))
+    return out
+
+
+def dollar_predicates(F):
+    """local functions that return exactly `param.ends_with('$')` (the name-suffix test given a name)"""
+    out = set()
+    for p, b in F.bodies.items():
+        if b.crate != "abasic_core" or b.local_ty(0) != "bool":
+            continue
+        cs = b.calls()
+        ew = [c for c in cs if c.callee.endswith("ends_with") and any(strip_expr(b.expr(a))[0] == "const" and strip_expr(b.expr(a))[1].get("int") == 36
+                                                                      for a in c.args)]
+        if len(ew) == 1 and all(c is ew[0] or c.callee.split("::")[-1] in ("as_str", "as_ref", "deref") for c in cs) and \
+                ew[0].dest["local"] == 0 and not ew[0].dest["proj"]:
+            out.add(p)
+    return out
+
+
+def delegated_step(F, body, inner_suffix, post_suffix):
+    """`body` returns H(|s| s.inner(..)) where the local helper H runs the closure it is given exactly once on every path and
+    returns post(result) -- i.e. body is `post(inner(..))` with the sequencing factored out.  -> description or None"""
+    d = body.unique_def(0)
+    if d is None or d[0] != "call":
+        return None
+    hc = d[2]
+    hb = F.bodies.get(hc.callee)
+    if hb is None or hb.path == body.path:
+        return None
+    # the closure argument and what it does
+    clos = None
+    for a in hc.args:
+        t = a.get("place", {}).get("ty", "") if a.get("k") in ("copy", "move") else a.get("ty", "")
+        if "{closure" in str(t):
+            e = strip_expr(body.expr(a))
+            for p in sorted(F.bodies):
+                if p.startswith(body.path + "::{closure") and F.bodies[p].span.line >= body.span.line:
+                    cb = F.bodies[p]
+                    inner = [c for c in cb.calls() if sfx(c.callee, inner_suffix)]
+                    others = [c for c in cb.calls() if c.is_local and not sfx(c.callee, inner_suffix)]
+                    if len(inner) == 1 and not others and cb.unique_def(0) is not None and cb.unique_def(0)[0] == "call" and \
+                            cb.unique_def(0)[2] is inner[0] and not cb.natural_loops():
+                        clos = cb
+    if clos is None:
+        return None
+    # the helper: one invocation of its closure parameter per path, then post(..) of exactly that result
+    inv = [c for c in hb.calls() if c.callee.split("::")[-1] in ("call_once", "call_mut", "call") or c.indirect]
+    post = [c for c in hb.calls() if sfx(c.callee, post_suffix)]
+    if len(inv) != 1 or len(post) != 1 or hb.natural_loops():
+        return None
+    hd = hb.unique_def(0)
+    if hd is None or hd[0] != "call" or hd[2] is not post[0]:
+        return None
+    arg = hb.expr(post[0].args[1]) if len(post[0].args) > 1 else None
+    if arg is None or not any(len(x) > 3 and x[3] is inv[0] for x in expr_calls(arg)):
+        return None
+    pd = hb.postdominators().get(0, set()) | {0}
+    if inv[0].bb not in pd or post[0].bb not in pd:
+        return None
+    return "%s(|s| s.%s(..)) with %s = post-process(closure())" % (hb.path.split("::")[-1], inner_suffix.split("::")[-1], hb.path.split("::")[-1])
